@@ -48,6 +48,7 @@ type Contract struct {
 	Pure     bool // no effect on modelled state; results constrained only by ensures
 	Function bool // results are a function of arguments (and of the world version when ReadsWorld)
 	ReadsWorld bool
+	Reads    []string // heap components a 'function' also depends on ("reads H.x.F, E.uint8, H.dt.*")
 	Trusted  bool // body not verified (interface methods, dependencies)
 	Inline   bool // callers inline the body instead of using the contract
 	NoVerify bool
@@ -250,6 +251,12 @@ func ParseContracts(pkgPath, filename string, file *ast.File, fsetLine func(ast.
 				cur.Pure = true
 			case "reads-world":
 				cur.ReadsWorld = true
+			case "reads":
+				for _, a := range strings.Split(rest, ",") {
+					if a = strings.TrimSpace(a); a != "" {
+						cur.Reads = append(cur.Reads, a)
+					}
+				}
 			case "trusted":
 				cur.Trusted = true
 			case "inline":
